@@ -212,7 +212,9 @@ func WakePublishListeners(onlyInternal bool, subIDs ...uuid.UUID) {
 	for _, subID := range subIDs {
 		waitSet := pubWaiters[subID]
 		if waitSet == nil {
-			return
+			// nobody is waiting on this one, but the remaining ones still have to
+			// be woken
+			continue
 		}
 		for c := range waitSet {
 			close(c)
